@@ -198,6 +198,22 @@ func c18GenArchive(t *rapid.T) ([]byte, string) {
 		if shaped && name[0] == '0' {
 			format = "gnu" // 8-bit name bytes
 		}
+		if rapid.IntRange(0, 19).Draw(t, "verylong") == 0 {
+			// path names and link targets of any length (PATH_MAX is not a limit of the format)
+			n := rapid.SampledFrom([]int{255, 256, 4095, 4096, 4097, 5000, 70000}).Draw(t, "pathlen")
+			name = strings.Repeat("d/", n/2)[:n-1] + "f"
+			if rapid.Bool().Draw(t, "longlink") && h.Typeflag == atar.TypeSymlink {
+				h.Linkname = strings.Repeat("l", n)
+			}
+			h.Name = name
+			if format == "ustar" {
+				format = rapid.SampledFrom([]string{"gnu", "pax"}).Draw(t, "longfmt")
+			}
+		}
+		if i == 0 && n >= 2 && rapid.IntRange(0, 9).Draw(t, "sizedlink") == 0 && (h.Typeflag == atar.TypeLink || h.Typeflag == atar.TypeSymlink || h.Typeflag == atar.TypeDir) {
+			// old archivers record the size of the linked file in a link's header (there is no data)
+			h.Size = int64(rapid.SampledFrom([]int{1, 100, 512, 1000, 1536}).Draw(t, "linksize"))
+		}
 		if rapid.IntRange(0, 9).Draw(t, "highbytes") == 0 {
 			// legacy 8-bit names (GNU format stores them as they are): every string field full
 			// of bytes >= 0x80, so that the header checksum exceeds 16 bits
